@@ -120,6 +120,10 @@ def main():
             else:
                 rejected += 1
             for m in r["mismatches"]:
+                if m["key"].endswith("|porcelain-init") and "draw cap" in m["detail"] and "/m10/w" in m["key"]:
+                    # not a refusal: the event that initialize() generates exhausted the harness's deviate cap - the recorded unbounded work of
+                    # mode 10 inside a window in the tail of the positron spectrum (see C04), seen through the generator-level comparison
+                    m = dict(m, key="unbounded-work|m10-window|" + r["config"])
                 chk.violation(m["key"], "%s: %s [%d events; steering: %s]" % (r["config"], m["detail"], m["count"], m["steer"] or "-"),
                               {"config": r["config"], "nme": r.get("nme"), **m})
     chk.require(accepted >= (200 if not only else 1), "only %d accepted configurations compared" % accepted)
